@@ -68,7 +68,7 @@ fn caller(id: u64, per: u64, mix: &str) {
     unsafe { libc::pipe(fds.as_mut_ptr()); }
     for k in 0..per {
         if std::env::var_os("OCH_URING_DEBUG").is_some() {
-            eprintln!("caller {id} iter {k}: thread={:?} co={} susp={} loop_pool={}", std::thread::current().name(), open_coroutine_core::scheduler::SchedulableCoroutine::current().is_some(), open_coroutine_core::scheduler::SchedulableSuspender::current().is_some(), open_coroutine_core::co_pool::CoroutinePool::current().is_some());
+            eprintln!("caller {id} iter {k}: tid={} thread={:?} co={} susp={} loop_pool={}", unsafe { libc::syscall(libc::SYS_gettid) }, std::thread::current().name(), open_coroutine_core::scheduler::SchedulableCoroutine::current().is_some(), open_coroutine_core::scheduler::SchedulableSuspender::current().is_some(), open_coroutine_core::co_pool::CoroutinePool::current().is_some());
         }
         let bad = match mix { "err" => true, "mixed" => (id + k) % 3 == 0, _ => false };
         if bad {
@@ -110,7 +110,8 @@ pub fn exec(body: &str, emit: &mut dyn FnMut(&str)) {
     }
     let hs: Vec<_> = (0..threads).map(|t| { let mix = mix.clone(); std::thread::spawn(move || caller(100 + t, per, &mix)) }).collect();
     let t0 = Instant::now();
-    while DONE.load(Ordering::SeqCst) < cos + threads && t0.elapsed() < Duration::from_secs(6) { std::thread::sleep(Duration::from_millis(5)); }
+    while DONE.load(Ordering::SeqCst) < cos + threads && t0.elapsed() < Duration::from_millis(6000 + 60 * per) { std::thread::sleep(Duration::from_millis(5)); }
     let _ = hs;
+    if std::env::var_os("OCH_URING_HOLD").is_some() && DONE.load(Ordering::SeqCst) < cos + threads { eprintln!("HOLD pid={}", std::process::id()); std::thread::sleep(Duration::from_secs(40)); }
     emit(&format!("ok={} wrong={} lost={} errs={}", OK.load(Ordering::SeqCst), WRONG.load(Ordering::SeqCst), cos + threads - DONE.load(Ordering::SeqCst), ERRS.load(Ordering::SeqCst)));
 }
